@@ -1,5 +1,6 @@
 # self-validation battery (see runner.py): mutants must be reported under the named rule, neutral rewrites must stay silent
 MUTANTS = [
+    {'name': 'revert: tuplet estimation rounds', 'revert': 'tuplet estimation rounds', 'expect': '|F10-tuplet|'},
     {'name': 'DURS row value wrong', 'file': 'partitura/utils/globals.py', 'old': '        1.5625000e-02,\n        2.3437500e-02,', 'new': '        1.5625000e-02,\n        2.3437600e-02,', 'expect': 'F3'},
     {'name': 'SYM_DURS row dots wrong', 'file': 'partitura/utils/globals.py', 'old': '    {"type": "256th", "dots": 2},', 'new': '    {"type": "256th", "dots": 3},', 'expect': 'F3'},
     {'name': 'composite component wrong', 'file': 'partitura/utils/globals.py', 'old': '        {"type": "16th", "dots": 0},\n        {"type": "16th", "dots": 0, "actual_notes": 3, "normal_notes": 2},', 'new': '        {"type": "16th", "dots": 0},\n        {"type": "32nd", "dots": 0, "actual_notes": 3, "normal_notes": 2},', 'expect': 'F3'},
